@@ -263,8 +263,19 @@ class JsonSchemaParser:
             else:
                 prop_schema = prop
             attname = prop_schema.get('x-var-name') or key
-            if not valid_attr(attname) or attname in attrs or hasattr(dict, attname):
-                attname = self.get_attname(attname, excludes=list(attrs))
+            if (
+                not valid_attr(attname)
+                or attname in attrs
+                or hasattr(dict, attname)
+                or attname.startswith('_')
+            ):
+                # names of dict attributes (items, keys, update, ...) cannot be Schema fields, and
+                # names starting with '_' are not treated as fields at all: rename, keep the key as alias
+                # the new name must not be taken by a field, a dict attribute or another property's key
+                excludes = list(attrs) + dir(dict) + [k for k in properties if k != key]
+                attname = self.get_attname(attname, excludes=excludes) or 'field'
+                if attname in excludes or not valid_attr(attname):
+                    attname = self.get_attname('field_' + attname, excludes=excludes)
             alias = None
             if attname != key:
                 alias = key
